@@ -57,6 +57,23 @@ def _run_one(job):
                     f.write(_ast.unparse(_ast.parse(fs)) + '\n')
         elif fn == 'PATCH':
             import subprocess
+            # only the package is copied: keep the sections of the patch that touch diskcache/
+            with open(old) as f:
+                ptxt = f.read()
+            secs, cur = [], []
+            for line in ptxt.splitlines(keepends=True):
+                if line.startswith('diff --git ') or (line.startswith('diff -ruN ')):
+                    if cur:
+                        secs.append(cur)
+                    cur = []
+                cur.append(line)
+            if cur:
+                secs.append(cur)
+            kept = [sec for sec in secs if any(l.startswith(('+++ b/diskcache/', '+++ diskcache/')) for l in sec[:6])]
+            if kept and len(kept) != len(secs):
+                old = os.path.join(d, 'package-only.diff')
+                with open(old, 'w') as f:
+                    f.write(''.join(''.join(sec) for sec in kept))
             r = subprocess.run(['patch', '-p1', '-s', '-d', d, '-i', old], capture_output=True, text=True)
             if r.returncode != 0:
                 return {'id': mid, 'kind': kind, 'status': 'not-applicable', 'why': 'patch does not apply to the current source'}
